@@ -95,17 +95,22 @@ static int first_claimed(int from_end)
 	else { for (int i = 0; i < nwin; i++) if (win[i].st == 0) return i + 1; }
 	return 0;
 }
+static int fuel;
+#define FUEL() if (fuel-- <= 0) { printf("{\"e\":\"Stuck\",\"a\":[],\"r\":0,\"ok\":0}\n"); return; }
 static void systematic(void)
 {
+	fuel = 40 * depth + 3000;
 	for (int round = 0; round < 3; round++) {
 		for (int i = 0; i <= depth; i++) { do_claim(); do_empty(); }      /* fill, one too many */
 		int k;
 		while ((k = first_claimed(round != 1)) != 0) {                      /* sends in reverse (or forward) order */
+			FUEL();
 			do_send(k);
 			do_empty();
 			do_receive();
 		}
 		while (nwin) {
+			FUEL();
 			do_receive();
 			if (win[0].st == 2) do_release();
 			do_claim();
@@ -115,6 +120,7 @@ static void systematic(void)
 			if (tagctr % 97 == 0) break;
 		}
 		while (nwin) {                                                  /* drain */
+			FUEL();
 			int j = first_claimed(0);
 			if (j) do_send(j);
 			do_receive();
@@ -136,12 +142,20 @@ static void randomh(int nops)
 		}
 	}
 }
+static void randomh(int nops);
+static void systematic(void);
 static void gen(long seed, int nrandom, int nops, int both)
 {
-	static const int sizes[] = { 1, 3, 4, 7, 24, 1000 };
+	/* the largest message size the 16-bit msg_len field allows */
+	static const int bigd[] = { 2, 3, 17, 32 };
+	for (int i = 0; i < 4; i++) {
+		reset(bigd[i], 65535, i % 2 ? 65534 : 0, i % 2);
+		systematic();
+	}
+	static const int sizes[] = { 1, 3, 4, 7, 24, 1000, 4096 };   /* 32 x 4096 > 64 KiB: offsets beyond 16 bits */
 	drv_srand(seed);
 	for (int d = 1; d <= 32; d++)
-		for (int si = 0; si < 6; si++)
+		for (int si = 0; si < 7; si++)
 			for (int sl = 0; sl < 3; sl++) {
 				int m = sizes[si];
 				int s = sl == 0 ? 0 : sl == 1 ? (m > 1 ? 1 : 0) : m - 1;
